@@ -205,7 +205,9 @@ static Conv direct_converter(int sti) {
   }
 }
 
-// minimal iterator in the C layout of the interface (one value, then exhausted)
+// minimal iterator in the C layout of the interface. Like the library's argument iterators (mpt_process_vararg, the file
+// and value-list iterators of mptplot) it keeps the current element in ONE storage slot: advance() overwrites the slot with
+// the following element (the bitwise complement of the first one) and, behind the last element, with a poison pattern.
 struct CIter;
 struct CIterVptr {
   const value *(*get)(CIter *);
@@ -215,12 +217,23 @@ struct CIterVptr {
 struct CIter {
   const CIterVptr *vptr;
   value *val;
-  bool have;
-  int advanced;
+  int pos;          // 0: first element, 1: follower, 2: exhausted
+  uint8_t *slot;    // storage the value points to (NULL: value without data address)
+  int width;
+  uint8_t first[16];
+  void init(value *v, void *storage, int w) {
+    vptr = 0; val = v; pos = 0; slot = (uint8_t *)storage; width = w;
+    if (slot) memcpy(first, slot, w);
+  }
 };
-static const value *it_get(CIter *i) { return i->have ? i->val : 0; }
-static int it_advance(CIter *i) { if (!i->have) return MPT_ERROR(MissingData); i->have = false; i->advanced++; return 0; }
-static int it_reset(CIter *i) { i->have = true; return 0; }
+static const value *it_get(CIter *i) { return i->pos < 2 ? i->val : 0; }
+static int it_advance(CIter *i) {
+  if (i->pos >= 2) return MPT_ERROR(MissingData);
+  i->pos++;
+  if (i->slot) for (int k = 0; k < i->width; k++) i->slot[k] = i->pos == 1 ? (uint8_t)~i->first[k] : 0xEE;
+  return i->pos < 2 ? 1 : 0;
+}
+static int it_reset(CIter *i) { i->pos = 0; if (i->slot) memcpy(i->slot, i->first, i->width); return 1; }
 static const CIterVptr kIterVptr = {it_get, it_advance, it_reset};
 
 enum { EDirect = 1, EValue = 2, EConsume = 4, ECopy = 8 };
@@ -250,10 +263,14 @@ static void data_pair(Ctx &c, int sti, const Val &s, int tti, unsigned entries, 
     judge_data(c, absent ? "value-absent" : "value", st, s, t, r1, r0, d);
   }
   if (entries & EConsume) {
-    CIter it = {&kIterVptr, v, true, 0};
-    int r1 = call_canary(d, canary, 0, [&](void *p) { it.have = true; return mpt_iterator_consume(reinterpret_cast<iterator *>(&it), t.id, p); });
-    it.have = true;
+    CIter it;
+    it.init(v, src.p, st.width);
+    if (absent) it.slot = 0;
+    it.vptr = &kIterVptr;
+    int r1 = call_canary(d, canary, 0, [&](void *p) { it_reset(&it); return mpt_iterator_consume(reinterpret_cast<iterator *>(&it), t.id, p); });
+    it_reset(&it);
     int r0 = mpt_iterator_consume(reinterpret_cast<iterator *>(&it), t.id, 0);
+    it_reset(&it);   // the slot is the source block of the other entry points
     judge_data(c, absent ? "consume-absent" : "consume", st, s, t, r1, r0, d);  // the meaning of a positive return (source type id) is not part of the property
   }
   if ((entries & ECopy) && sti == tti) {
@@ -881,6 +898,208 @@ static void iterator_case(Ctx &c, uint8_t canary) {
   }
 }
 
+// ------------------------------------------------------------------ vararg argument iterator (mpt_process_vararg)
+// The iterator behind mpt_process_vararg() / mpt_object_set(obj, name, "dd", ...) keeps the current argument in one
+// internal buffer that advance() reloads. mpt_iterator_consume() on it must deliver element k's own number for same-type
+// and for converting requests. The argument list is built by hand in the overflow area of a System V x86-64 va_list
+// (all register slots marked used), so any format string can be paired with matching arguments.
+static bool ref_is_pattern(const Ref &r, const TI &t, uint8_t pat) {  // would the stored reference value consist of `pat` bytes only?
+  if (!r.possible || r.nan) return false;
+  uint8_t b[16];
+  int n = t.width;
+  if (!t.flt) { uint64_t u = (uint64_t)(u128)r.iv; memcpy(b, &u, n); }
+  else if (t.width == 4) { float f = (float)r.fv; memcpy(b, &f, 4); }
+  else if (t.width == 8) { double d = (double)r.fv; memcpy(b, &d, 8); }
+  else { memcpy(b, &r.fv, 10); n = 10; }
+  for (int i = 0; i < n; i++) if (b[i] != pat) return false;
+  return true;
+}
+#if defined(__x86_64__) && defined(__linux__)
+#define C07_HAVE_VARARG 1
+struct VaElem { int ti; Val v; };
+struct VaRun {
+  Ctx *c;
+  std::vector<VaElem> *el;
+  std::vector<uint8_t> *plan;   // per element: target type index, flags (bit0: with destination)
+  uint8_t canary;
+  bool called, failed;
+  Fail fail;
+};
+static void va_drive(VaRun &x, iterator *it) {
+  Ctx &c = *x.c;
+  const CIterVptr *vp = *reinterpret_cast<const CIterVptr *const *>(it);
+  for (size_t k = 0; k < x.el->size(); k++) {
+    const VaElem &e = (*x.el)[k];
+    const TI &st = kT[e.ti], &t = kT[(*x.plan)[2 * k]];
+    bool with_dest = (*x.plan)[2 * k + 1] & 1;
+    Ref ref = ref_result(e.v, t);
+    uint8_t cn = ref_is_pattern(ref, t, x.canary) ? (uint8_t)~x.canary : x.canary;
+    Dest d;
+    d.fill(cn);
+    int r = mpt_iterator_consume(it, t.id, with_dest ? d.p() : 0);
+    c.logf(" argument %zu ('%c'): mpt_iterator_consume('%c', %s) = %d", k, st.id, t.id, with_dest ? "dest" : "no dest", r);
+    if (with_dest) judge_data(c, "vararg", st, e.v, t, r, r, d);
+    else {
+      if (r >= 0 && !ref.possible)
+        c.fail(tagof("vararg", "accepted-unrepresentable", t.id).c_str(), "vararg '%c'->'%c': query accepts argument %zu although its value is not representable in the target", st.id, t.id, k);
+      if (!d.untouched()) c.fail(tagof("vararg", "canary", t.id).c_str(), "vararg '%c'->'%c': query changed an unrelated buffer", st.id, t.id);
+    }
+    if (st.id == t.id) c.label("vararg:same-type");
+    if (r < 0) {  // refused: the argument stays current, step over it
+      int a = vp->advance(reinterpret_cast<CIter *>(it));
+      c.logf("  advance() = %d", a);
+      c.label("vararg:refused");
+    } else c.label("vararg:consumed");
+  }
+}
+static int va_proc(void *ptr, iterator *it) {
+  VaRun *x = (VaRun *)ptr;
+  x->called = true;
+  try { va_drive(*x, it); }   // no exception may cross the library frame of mpt_process_vararg
+  catch (const Fail &f) { x->failed = true; x->fail = f; }
+  return 0;
+}
+static void vararg_case(Ctx &c, uint8_t canary) {
+  std::vector<VaElem> el;
+  std::vector<uint8_t> plan;
+  uint8_t mode = c.u8();
+  size_t n = mode == 0xff ? 2 : 1 + c.weighted({2, 4, 3, 2});
+  for (size_t k = 0; k < n; k++) {
+    VaElem e;
+    e.ti = (int)c.pick(NT);
+    const TI &st = kT[e.ti];
+    if (mode == 0xff) { e.v.flt = st.flt; e.v.iv = 65 + (i128)k; e.v.fv = 65 + (long double)k; }
+    else e.v = st.flt ? gen_flt(c, st) : gen_int(c, st);
+    if (e.ti == Tf) e.v.fv = (long double)(float)e.v.fv;
+    else if (e.ti == Td) e.v.fv = (long double)(double)e.v.fv;
+    el.push_back(e);
+    int tt = mode == 0xff ? e.ti : (c.flip() ? e.ti : (int)c.pick(NT));
+    plan.push_back((uint8_t)tt);
+    plan.push_back(mode == 0xff ? 1 : (c.chance(224) ? 1 : 0));
+    if (in_some_range_violation(e.v)) c.nontrivial();
+  }
+  // argument area: what the default argument promotions put on the stack
+  alignas(16) uint8_t area[16 * 6];
+  memset(area, 0, sizeof area);
+  size_t off = 0;
+  std::string fmt;
+  for (const VaElem &e : el) {
+    const TI &st = kT[e.ti];
+    fmt += st.id;
+    if (!st.flt) { int64_t w = (int64_t)e.v.iv; uint64_t u = (uint64_t)(u128)e.v.iv; if (st.sgn) memcpy(area + off, &w, 8); else memcpy(area + off, &u, 8); off += 8; }
+    else if (e.ti == Te) { off = (off + 15) & ~(size_t)15; long double v = e.v.fv; memcpy(area + off, &v, 10); off += 16; }
+    else { double v = (double)e.v.fv; memcpy(area + off, &v, 8); off += 8; }
+  }
+  c.logf("mpt_process_vararg(\"%s\", ...)", fmt.c_str());
+  for (size_t k = 0; k < el.size(); k++) c.logf(" argument %zu '%c' = %s", k, kT[el[k].ti].id, el[k].v.flt ? ldstr(el[k].v.fv).c_str() : i128str(el[k].v.iv).c_str());
+  c.label("vararg:case");
+  va_list ap;
+  ap[0].gp_offset = 48;    // no general purpose register slot left
+  ap[0].fp_offset = 176;   // no floating point register slot left
+  ap[0].overflow_arg_area = area;
+  ap[0].reg_save_area = 0;
+  VaRun x = {&c, &el, &plan, canary, false, false, Fail()};
+  int r = mpt_process_vararg(fmt.c_str(), ap, va_proc, &x);
+  if (x.failed) throw x.fail;
+  c.logf("mpt_process_vararg = %d%s", r, x.called ? "" : " (handler not called)");
+  if (x.called && n >= 2) c.nontrivial();
+}
+#else
+static void vararg_case(Ctx &c, uint8_t) { c.label("vararg:unsupported-platform"); }
+#endif
+
+// ------------------------------------------------------------------ target type ids beyond the scalar ids
+// Every entry point that takes a target type id gets ids that are NOT one of the 13 scalar ids but look like one in
+// their low byte (or low 32 bits): the meta pointer range 0x100..0x7ff, the static and registered value types
+// 0x800..0xfff (mpt_type_add), interface and dynamic ids 0x80..0xff, and private ids (types.h: any fixed value above
+// 0xfff, typically the address of a global object). None of them has a documented conversion from a number or a
+// numeral, so the only correct answer is a refusal that leaves the destination alone.
+alignas(256) static char g_private_ids[256];
+static std::vector<uintptr_t> g_registered;
+static void register_types() {   // process-wide, done once before the first case (Target::reset)
+  static bool done = false;
+  if (done) return;
+  done = true;
+  static const type_traits tr(4);
+  for (int k = 0; k < 0x80; k++) { int id = mpt_type_add(&tr); if (id > 0) g_registered.push_back((uintptr_t)id); }
+  for (int k = 0; k < 4; k++) { int id = mpt_type_basic_add(4); if (id > 0) g_registered.push_back((uintptr_t)id); }
+}
+static const std::vector<uintptr_t> &foreign_ids() {
+  static std::vector<uintptr_t> all;
+  if (!all.empty()) return all;
+  static const uintptr_t bases[] = {0x100, 0x300, 0x700, 0x800, 0x900, 0xa00, 0xf00, 0x1000, 0x10000, 0x7f000000, (uintptr_t)1 << 32, (uintptr_t)0xffffffff << 32, (uintptr_t)g_private_ids};
+  std::string lows = "cbynqiuxtlfde";
+  for (char ch : std::string("cbynqiuxtfde")) lows += (char)(ch - 0x20);   // the vector codes of the scalars
+  lows += "sk@";
+  for (uintptr_t b : bases) for (char ch : lows) all.push_back(b | (uint8_t)ch);
+  for (uintptr_t id = 0x80; id <= 0x8a; id++) all.push_back(id);      // interface ids
+  for (uintptr_t id : {0x90, 0xbf, 0xc0, 0xe9, 0xff, 0x100, 0x7ff, 0x800, 0x801, 0x802, 0x803, 0x8ff, 0x900, 0xfff, 0x1000}) all.push_back(id);
+  for (uintptr_t id : g_registered) all.push_back(id);
+  all.push_back((uintptr_t)&g_registered);
+  all.push_back((uintptr_t)foreign_ids);
+  return all;
+}
+static void foreign_refused(Ctx &c, const char *family, const char *what, uintptr_t id, int r, int r0, bool text, const Dest &d) {
+  c.logf("  %s to type id 0x%lx: ret %d (dest) / %d (no dest)", what, (unsigned long)id, r, r0);
+  bool ok = text ? (r <= 0 && r0 <= 0) : (r < 0 && r0 < 0);
+  if (!ok || !d.untouched())
+    c.fail((std::string("foreign:") + family).c_str(), "%s accepts the target type id 0x%lx (low byte '%c'), which is none of the scalar ids: ret %d with destination, %d without; destination %s", what,
+           (unsigned long)id, (id & 0xff) >= 32 && (id & 0xff) < 127 ? (char)(id & 0xff) : '?', r, r0, d.untouched() ? "untouched" : hex(d.b, Dest::Size).c_str());
+}
+static void foreign_case(Ctx &c, uint8_t canary) {
+  const std::vector<uintptr_t> &ids = foreign_ids();
+  uint8_t mode = c.u8();
+  uintptr_t id;
+  if (mode == 0xff || c.weighted({3, 1}) == 0) id = ids[c.u16() % ids.size()];
+  else { id = (uintptr_t)c.u64(); if (c.flip()) id &= 0xffffffff; if (c.flip()) id = (id & ~(uintptr_t)0xff) | (uint8_t)"cbynqiuxtlfde"[c.pick(13)]; if (id < 0x100) id |= 0x100; }
+  int sti = (int)c.pick(NT);
+  const TI &st = kT[sti];
+  Val s = {st.flt, 65, 65};
+  if (mode != 0xff) s = st.flt ? gen_flt(c, st) : gen_int(c, st);
+  c.logf("target type id 0x%lx, source '%c' value %s", (unsigned long)id, st.id, s.flt ? ldstr(s.fv).c_str() : i128str(s.iv).c_str());
+  c.label("foreign:case");
+  if (id >= 0x900 && id <= 0xfff) c.label("foreign:registered-range");
+  else if (id > 0xfff) c.label("foreign:private-id");
+  Mem src(st.width);
+  store(st, s, src.p);
+  Dest d;
+  d.fill(canary);
+  Conv f = direct_converter(sti);
+  foreign_refused(c, "data", "mpt_data_convert_*", id, f(src.p, id, d.p()), f(src.p, id, 0), false, d);
+  CObj<value> v;
+  v->_addr = src.p;
+  v->_type = (type_t)st.id;
+  foreign_refused(c, "value", "mpt_value_convert", id, mpt_value_convert(v, id, d.p()), mpt_value_convert(v, id, 0), false, d);
+  CIter it;
+  it.init(v, src.p, st.width);
+  it.vptr = &kIterVptr;
+  int r1 = mpt_iterator_consume(reinterpret_cast<iterator *>(&it), id, d.p());
+  it_reset(&it);
+  int r0 = mpt_iterator_consume(reinterpret_cast<iterator *>(&it), id, 0);
+  it_reset(&it);
+  foreign_refused(c, "consume", "mpt_iterator_consume", id, r1, r0, false, d);
+  // numerals
+  static const char *plain[] = {"65", "1", "0x41", "-3", "1.5e3", "A", "250.75 7"};
+  std::string text = mode == 0xff ? "65" : (c.flip() ? std::string(plain[c.pick(7)]) : gen_word(c));
+  char *txt = (char *)malloc(text.size() + 1);
+  memcpy(txt, text.c_str(), text.size() + 1);
+  struct Free { char *p; ~Free() { free(p); } } fr = {txt};
+  c.logf(" numeral %s", quoted(text).c_str());
+  if (id <= 0x7fffffff) foreign_refused(c, "number", "mpt_convert_number", id, mpt_convert_number(txt, (int)id, d.p()), mpt_convert_number(txt, (int)id, 0), true, d);
+  foreign_refused(c, "string", "mpt_convert_string", id, mpt_convert_string(txt, id, d.p()), mpt_convert_string(txt, id, 0), true, d);
+  TextIter ti;
+  ti.heap = (char *)malloc(text.size() + 1);
+  memcpy(ti.heap, text.c_str(), text.size() + 1);
+  ti.mt = mpt_iterator_string(ti.heap, 0);
+  if (ti.mt && (*reinterpret_cast<const MetaVptrC *const *>(ti.mt))->convert(ti.mt, TypeIteratorPtr, &ti.it) >= 0 && ti.it) {
+    const value *ev = ti.get();
+    // the element is a convertable pointer: a request for its own type id is the documented identity copy, not a number conversion
+    if (ev && ev->_type != id) foreign_refused(c, "iter", "mpt_value_convert(text iterator element)", id, mpt_value_convert(ev, id, d.p()), mpt_value_convert(ev, id, 0), false, d);
+    foreign_refused(c, "iter", "mpt_iterator_consume(text iterator)", id, mpt_iterator_consume(ti.it, id, d.p()), mpt_iterator_consume(ti.it, id, 0), false, d);
+  }
+  c.nontrivial();
+}
+
 // ------------------------------------------------------------------ case
 static void data_op(Ctx &c, uint8_t canary, bool absent) {
   int sti = (int)c.pick(NT), tti = (int)c.pick(NT);
@@ -919,6 +1138,8 @@ static void run(Ctx &c) {
     c.label("enumerated-absent");
     return;
   }
+  if ((sel & 0xC7) == 0x84) { vararg_case(c, (sel & 8) ? 0xA5 : 0x5A); return; }    // 0x84, 0x8c, .. 0xbc
+  if ((sel & 0xC7) == 0xC4) { foreign_case(c, (sel & 8) ? 0xA5 : 0x5A); return; }   // 0xc4, 0xcc, .. 0xfc
   uint8_t canary = (sel & 1) ? 0xA5 : 0x5A;
   bool absent = (sel & 0x38) == 0x08;   // one case in eight: the data conversions of this case read a source without data address
   if ((sel & 6) == 2) { iterator_case(c, canary); return; }   // selector 0 / 0xff keep the decoding of the committed corpus
@@ -949,6 +1170,16 @@ static void enum2_make(uint64_t idx, int, std::vector<uint8_t> &out) {
   out.push_back((uint8_t)idx);
 }
 
+// exhaustive: every fixed foreign target id x every source type (fixed value 65 / numeral "65")
+static uint64_t enum3_count(int) { register_types(); return (uint64_t)foreign_ids().size() * NT; }
+static void enum3_make(uint64_t idx, int, std::vector<uint8_t> &out) {
+  uint64_t fid = idx / NT, sti = idx % NT;
+  out = {0xc4, 0xff, (uint8_t)(fid & 0xff), (uint8_t)(fid >> 8), (uint8_t)sti};
+}
+// exhaustive: vararg lists of two arguments, all 13 x 13 type pairs, each consumed with its own type
+static uint64_t enum4_count(int) { return NT * NT; }
+static void enum4_make(uint64_t idx, int, std::vector<uint8_t> &out) { out = {0x84, 0xff, (uint8_t)(idx / NT), (uint8_t)(idx % NT)}; }
+
 static Target t = {
     "C07",
     "random: sequences of (a) data conversions: source type x target type over {c,b,y,n,q,i,u,x,t,l,f,d,e}, source value from target-range boundaries +-2, "
@@ -959,7 +1190,10 @@ static Target t = {
     "mpt_convert_number and mpt_convert_string for all 13 ids, with and without destination; (c) one case in four: text argument iterator mpt_iterator_string over 0..5 generated "
     "numerals separated by generated blank runs (optional leading/trailing blanks), per element 0..3 requests (mpt_value_convert to any of the 13 ids with or without destination, string view, "
     "character-vector view) followed by mpt_iterator_consume to a drawn id: every result must equal the isolated mpt_convert_string of the remaining text, a blank rest delivers no value, "
-    "and after a whole-word consume the next element starts behind the blank run. exhaustive: all 256/65536 values of source types c,b,y,n,q x 13 targets "
+    "and after a whole-word consume the next element starts behind the blank run; (d) 3%: the vararg argument iterator of mpt_process_vararg over 1..4 generated arguments of any of the 13 ids "
+    "(hand-built x86-64 va_list), each consumed by mpt_iterator_consume with its own or a drawn id: element k's own number; (e) 3%: target type ids that are no scalar id but carry a scalar/vector code "
+    "in the low byte or low 32 bits (meta pointer, static, registered via mpt_type_add, interface, private/address ids) through every entry point that takes a target id: must be refused, destination untouched. "
+    "The harness iterator keeps its element in one slot that advance() overwrites. exhaustive: all 256/65536 values of source types c,b,y,n,q x 13 targets "
     "x 3 entry points x {dest, no dest}. non-trivial: a source value outside at least one target range (negative, > 127, non-integral or non-finite), or an accepted numeral "
     "above 32 bits, or an iterator element that was converted to at least two different target types before it was consumed; distinct by hash of the draw sequence.",
     run,
@@ -967,8 +1201,10 @@ static Target t = {
     false,
     true,
     {{"all values of 8/16 bit sources c,b,y,n,q x all targets x entries x {dest,no dest}", enum_count, enum_make},
-     {"source without data address: 13 source types x 13 targets x entries x {dest,no dest}", enum2_count, enum2_make}},
-    0,
+     {"source without data address: 13 source types x 13 targets x entries x {dest,no dest}", enum2_count, enum2_make},
+     {"target type ids beyond the scalar ids (scalar/vector low byte in the meta pointer, static, registered and private ranges; interface ids) x 13 source types x all entry points", enum3_count, enum3_make},
+     {"vararg argument lists of two arguments: 13 x 13 types, each consumed with its own type", enum4_count, enum4_make}},
+    register_types,
     0,
 };
 Target &vp::target() { return t; }
